@@ -197,6 +197,21 @@ def run(tier, seed):
             res.case(("realrun", name, integ), worst[1] > 1e-300, dict(model=name, integrator=integ, max_moment=worst[1], max_relative_defect=worst[0]))
             if worst[0] > 1e-9:
                 bad.append(dict(failed="moment matrices remain Hermitian in the state indices at all times (A-FSSH on %s, %s: relative anti-Hermitian part %.2e)" % (name, integ, worst[0]), case=dict(model=name, integrator=integ, x0=x0, p0=p0, dt=dtv)))
+    # ---- real runs started from zero moments: the two moment integrators build up the same moments as dt shrinks
+    for name, mk_, x0, p0, dtv in REAL[:3]:
+        diffs, sizes = [], []
+        for dtx in (dtv, dtv / 2):
+            outs = []
+            for integ in ("exp", "rk4"):
+                tr = mudslide.AugmentedFSSH(mk_(), x0, p0, 0, dt=dtx, max_steps=int(round(16 * dtv / dtx)), zeta_list=[2.0] * 200, augmented_integration=integ,
+                                            electronic_integration="exp", seed_sequence=5)
+                tr.gamma_collapse = lambda el, n_=tr.model.nstates(): np.zeros(n_)        # no collapse: compare the propagation alone
+                tr.simulate(); outs.append((tr.delR.copy(), tr.delP.copy()))
+            diffs.append(max(float(np.max(np.abs(outs[0][0] - outs[1][0]))), float(np.max(np.abs(outs[0][1] - outs[1][1])))))
+            sizes.append(max(float(np.max(np.abs(outs[0][1]))), float(np.max(np.abs(outs[1][1])))))
+        res.count("real-run-integrator-agreement/" + name); res.extra.setdefault("exp_vs_rk4_real", {})[name] = dict(differences=diffs, moment_size=sizes)
+        if sizes[1] > 0 and not (diffs[1] < 0.6 * diffs[0] + 1e-12 * sizes[1] and diffs[1] < 0.05 * sizes[1]):
+            bad.append(dict(failed="the two moment integrators agree as the time step goes to zero (real A-FSSH run on %s from zero moments: differences %r at dt, dt/2; moments of size %r)" % (name, diffs, sizes), case=dict(model=name, x0=x0, p0=p0, dt=dtv)))
     # ---- through hop_to_it: the re-centring happens at accepted hops only (frustrated attempts leave the moments alone)
     import p01
     nacc = nrej = 0
